@@ -916,7 +916,12 @@ func runOrig(c Case, res *lib.Result) string {
 	return ""
 }
 
-func runCase(c Case, tmp string, res *lib.Result) string {
+func runCase(c Case, tmp string, res *lib.Result) (ret string) {
+	defer res.Recover(c)
+	return runCaseRaw(c, tmp, res)
+}
+
+func runCaseRaw(c Case, tmp string, res *lib.Result) string {
 	switch c.Kind {
 	case "orig":
 		return runOrig(c, res)
